@@ -433,6 +433,50 @@ func c18connect(c *Ctx) {
 				ok, why = false, "Proxy-Authorization is sent iff the proxy URL carries a password: violated"
 			}
 			if authSet != nil {
+				// the header the credentials are put into belongs to this dial: made here, or a clone
+				if ci, isCI := authSet.Instr.(ssa.CallInstruction); isCI && len(ci.Common().Args) > 0 {
+					var fresh func(v ssa.Value, depth int) bool
+					fresh = func(v ssa.Value, depth int) bool {
+						if depth > 4 {
+							return false
+						}
+						switch x := v.(type) {
+						case *ssa.MakeMap:
+							return true
+						case *ssa.ChangeType:
+							return fresh(x.X, depth+1)
+						case *ssa.Call:
+							f := x.Call.StaticCallee()
+							if f != nil && f.Blocks != nil && c.P.InPkg(f) && f.Signature.Results().Len() == 1 {
+								// a helper that returns a fresh header on every path
+								n := 0
+								for _, b := range f.Blocks {
+									for _, in := range b.Instrs {
+										if ret, isRet := in.(*ssa.Return); isRet {
+											n++
+											if !fresh(ret.Results[0], depth+1) {
+												return false
+											}
+										}
+									}
+								}
+								return n > 0
+							}
+							return f != nil && extName(f) == "(net/http.Header).Clone"
+						case *ssa.Phi:
+							for _, e := range x.Edges {
+								if !fresh(e, depth+1) {
+									return false
+								}
+							}
+							return len(x.Edges) > 0
+						}
+						return false
+					}
+					if !fresh(ci.Common().Args[0], 0) {
+						ok, why = false, "Proxy-Authorization is set on a header that was not created for this dial ("+ci.Common().Args[0].Name()+" at "+c.P.Pos(authSet.Instr.Pos())+"): the credentials stay in a map that later dials, possibly through another proxy, send again"
+					}
+				}
 				v := authSet.Args[2]
 				good := v.Kind == core.KBin && v.Op.String() == "+"
 				if good {
@@ -537,4 +581,39 @@ func (c *Ctx) returnsParsedURL(f *ssa.Function) bool {
 		}
 	}
 	return n > 0
+}
+
+// dialerConfigNotSwapped: the TLS configuration the backend handshake clones
+// is the caller's Dialer.TLSClientConfig: where DialContext (or a helper)
+// works on a local copy of the Dialer, that copy's TLSClientConfig is not
+// overwritten (a proxy-hop configuration swapped in would also be used for the
+// backend certificate).
+func dialerConfigNotSwapped(c *Ctx, rule string) {
+	d := newDialA(c)
+	cfgF := c.P.Field("Dialer", "TLSClientConfig")
+	fns := []*ssa.Function{d.dial}
+	for callee := range c.P.Mod(d.dial).Callees {
+		if c.isNewHelper(callee, 1) {
+			fns = append(fns, callee)
+		}
+	}
+	ok, why := true, "no local copy of the Dialer has its TLSClientConfig replaced"
+	for _, fn := range fns {
+		for _, b := range fn.Blocks {
+			for _, in := range b.Instrs {
+				st, isSt := in.(*ssa.Store)
+				if !isSt {
+					continue
+				}
+				fa, isFA := st.Addr.(*ssa.FieldAddr)
+				if !isFA || fieldOf(fa) != cfgF {
+					continue
+				}
+				if _, local := fa.X.(*ssa.Alloc); local {
+					ok, why = false, shortFn(fn)+" replaces TLSClientConfig in a local copy of the Dialer at "+c.P.Pos(st.Pos())+": code further down that clones d.TLSClientConfig for the backend handshake then verifies the backend with that other configuration"
+				}
+			}
+		}
+	}
+	c.R.Check(rule, shortFn(d.dial), "backend-config-is-the-callers", d.dial.Pos(), ok, why)
 }
